@@ -157,6 +157,20 @@ impl Monitor for ScanMonitor {
             for c in p.calls {
                 match c {
                     AppCall::Reply { app: ca, addr, frame } if *ca == app => {
+                        // the answer of an address comes from that address (a short confirmation
+                        // carries none)
+                        if let Some(sa) = frame.sa() {
+                            if sa & 0x7F != *addr & 0x7F {
+                                w.violate(
+                                    self.prop,
+                                    "scan.reply",
+                                    "reply-from-another-address",
+                                    Some(master),
+                                    format!("{:?} of #{master} is handed {} as the reply of #{addr}", kind, frame.short()),
+                                );
+                                return;
+                            }
+                        }
                         let a = usize::from(*addr & 127);
                         match kind {
                             Kind::Live => {
